@@ -56,7 +56,56 @@ CondArmHybrid(body) ==
 LogicalRhsHybrid(body) ==
     \E n \in SeqNodes(body) : n.k = "bin" /\ n.o \in {"&&", "||"} /\ ContainsHybrid(n.b)
 
+\* leaves (registers, variables, immediates) of an expression / statement list as a *sequence* (with repetitions)
+RECURSIVE LeavesE(_)
+RECURSIVE LeavesS(_)
+RECURSIVE LeavesSeq(_, _)
+LeavesSeq(ss, i) == IF i > Len(ss) THEN <<>> ELSE LeavesS(ss[i]) \o LeavesSeq(ss, i + 1)
+RECURSIVE LeavesArgs(_, _)
+LeavesArgs(as, i) == IF i > Len(as) THEN <<>> ELSE LeavesE(as[i]) \o LeavesArgs(as, i + 1)
+LeavesE(e) ==
+    LET k == e.k IN
+    CASE k \in {"reg", "var", "imm"} -> <<e>>
+      [] k \in {"un", "cast", "postfix", "load", "sizeof", "prefix"} -> LeavesE(e.a)
+      [] k \in {"bin", "comma"} -> LeavesE(e.a) \o LeavesE(e.b)
+      [] k = "cond" -> LeavesE(e.c) \o LeavesE(e.a) \o LeavesE(e.b)
+      [] k = "assign" -> LeavesE(e.l) \o LeavesE(e.r)
+      [] k = "call" -> LeavesArgs(e.args, 1)
+      [] k = "stmtexpr" -> LeavesSeq(e.body, 1) \o LeavesE(e.e)
+      [] OTHER -> <<>>
+LeavesS(s) ==
+    LET k == s.k IN
+    CASE k = "decl" -> IF s.init.k = "none" THEN <<>> ELSE LeavesE(s.init)
+      [] k = "expr" -> LeavesE(s.e)
+      [] k = "block" -> LeavesSeq(s.b, 1)
+      [] k = "if" -> LeavesE(s.c) \o LeavesSeq(s.t, 1) \o LeavesSeq(s.e, 1)
+      [] k = "for" -> (IF s.init.k = "none" THEN <<>> ELSE LeavesS(s.init)) \o (IF s.c.k = "none" THEN <<>> ELSE LeavesE(s.c))
+                      \o (IF s.step.k = "none" THEN <<>> ELSE LeavesE(s.step)) \o LeavesSeq(s.body, 1)
+      [] k \in {"while", "do"} -> LeavesE(s.c) \o LeavesSeq(s.body, 1)
+      [] k = "return" -> IF s.e.k = "none" THEN <<>> ELSE LeavesE(s.e)
+      [] k = "store" -> LeavesE(s.a) \o LeavesE(s.v)
+      [] k = "jump" -> LeavesE(s.a)
+      [] OTHER -> <<>>
+CountIn(sq, x) == Cardinality({i \in 1..Len(sq) : sq[i] = x})
+
+RECURSIVE IsConstExpr(_)
+IsConstExpr(e) ==
+    CASE e.k = "num" -> TRUE
+      [] e.k \in {"un", "cast"} -> IsConstExpr(e.a)
+      [] e.k = "bin" -> IsConstExpr(e.a) /\ IsConstExpr(e.b)
+      [] OTHER -> FALSE
+
+\* S3: a ?: with a constant condition one of whose arms mentions a register / variable / immediate that
+\*     also occurs outside that arm (folding the conditional removes the shared operand's declaration)
+ConstCondShared(body) ==
+    LET all == LeavesSeq(body, 1) IN
+    \E n \in SeqNodes(body) :
+        n.k = "cond" /\ IsConstExpr(n.c) /\
+        \E arm \in {n.a, n.b} :
+            LET la == LeavesE(arm) IN \E i \in 1..Len(la) : CountIn(all, la[i]) > CountIn(la, la[i])
+
 ShapesOf(body) ==
+    (IF ConstCondShared(body) THEN {"ConstCondShared"} ELSE {}) \cup
     (IF CondArmHybrid(body) THEN {"CondArmHybrid"} ELSE {})
         \cup (IF LogicalRhsHybrid(body) THEN {"LogicalRhsHybrid"} ELSE {})
 =============================================================================
